@@ -187,8 +187,19 @@ def spec_check(p0, progs, snap) -> str | None:
 
 def run_cases(run: lib.Run, audit: dict, scale: int = 1):
     batch, cmds = [], []
+    stuck = 0
     for p0, progs, s, kind, label in cases(run, scale):
-        snap = run_real(p0, progs, s, kind)
+        try:
+            snap = run_real(p0, progs, s, kind)
+        except lib.CheckError as e:
+            # the engine's threads could not be driven through this schedule (an access pattern the scheduler does not know, or a
+            # real blocking wait): the correspondence is broken on this schedule; a handful of these ends the exploration
+            stuck += 1
+            run.count("schedule-not-executable")
+            run.disagreements.append({"p0": p0, "progs": progs, "schedule": s, "cache": kind, "scheduler": str(e)})
+            if stuck >= 3:
+                break
+            continue
         batch.append((p0, progs, s, kind, label, snap))
         cmds.append({"cmd": "sched-run", "p0": p0, "progs": progs, "sched": s})
     answers = proto.run_driver(cmds)
